@@ -1476,10 +1476,26 @@ func (d *DotGit) addRefsFromPackedRefsFile(refs *[]*plumbing.Reference, f billy.
 func (d *DotGit) openAndLockPackedRefs(doCreate bool) (
 	pr billy.File, err error,
 ) {
+	// Rewriters of packed-refs exclude each other with packed-refs.lock, as
+	// git does and as loose references do with <ref>.lock. The advisory lock
+	// on the file itself (below) cannot: a rewrite replaces packed-refs by
+	// rename, and a second rewriter that opened the old file before the
+	// rename and locked it afterwards holds a lock on a file that is no
+	// longer packed-refs (the mtime re-check only sees that across a
+	// timestamp tick). The lock is released when the returned file is closed.
+	lock, err := d.lockRef(packedRefsPath, 15*time.Second)
+	if err != nil {
+		return nil, err
+	}
 	var f billy.File
 	defer func() {
 		if err != nil && f != nil {
 			ioutil.CheckClose(f, &err)
+		}
+		if err != nil || pr == nil {
+			if uerr := d.unlockRef(packedRefsPath, lock); err == nil {
+				err = uerr
+			}
 		}
 	}()
 
@@ -1534,7 +1550,22 @@ func (d *DotGit) openAndLockPackedRefs(doCreate bool) (
 			return nil, err
 		}
 	}
-	return f, nil
+	return &lockedPackedRefs{File: f, unlock: func() error { return d.unlockRef(packedRefsPath, lock) }}, nil
+}
+
+// lockedPackedRefs is packed-refs opened for a rewrite; closing it also gives
+// up packed-refs.lock.
+type lockedPackedRefs struct {
+	billy.File
+	unlock func() error
+}
+
+func (l *lockedPackedRefs) Close() error {
+	err := l.File.Close()
+	if uerr := l.unlock(); err == nil {
+		err = uerr
+	}
+	return err
 }
 
 func (d *DotGit) rewritePackedRefsWithoutRef(name plumbing.ReferenceName) (err error) {
